@@ -142,16 +142,60 @@ impl Iterator for Counting {
     }
 }
 
-/// bounded: rectangles with corner in -2..=5 and sides 0..=6 x 0..=5 (every clipping case against the 5 x 4 / 4 x 5
+/// bounded: rectangles with corner in -2..=5 and sides 0..=8 x 0..=5 (every clipping case against the 5 x 4 / 4 x 5
 /// display: inside, each edge, corners, enclosing, disjoint, zero-sized), stream length 0..=area+2
 #[kani::proof]
-#[kani::unwind(32)]
+#[kani::unwind(44)]
 fn c04_fill_contiguous_colour_k_on_point_k() {
     let clock = leak_clock();
     let (mut d, o) = full_fb_display(clock);
     let (rx, ry): (i8, i8) = (kani::any(), kani::any());
     let (rw, rh): (u8, u8) = (kani::any(), kani::any());
-    kani::assume(rx >= -2 && rx <= 5 && ry >= -2 && ry <= 5 && rw <= 6 && rh <= 5);
+    kani::assume(rx >= -2 && rx <= 5 && ry >= -2 && ry <= 5 && rw <= 8 && rh <= 5);
+    let rect = Rectangle::new(Point::new(rx as i32, ry as i32), Size::new(rw as u32, rh as u32));
+    let area = rw as u32 * rh as u32;
+    let len: u32 = kani::any();
+    kani::assume(len <= area + 2);
+    kani::assert(d.fill_contiguous(&rect, Counting { next: 0, len }).is_ok(), "C02: fill_contiguous returned an error on a fault-free bus");
+    let (rx, ry, rw, rh) = (rx as i64, ry as i64, rw as i64, rh as i64);
+    // the k-th colour belongs to the k-th point of the requested rectangle in row-major order
+    let want = move |x: i64, y: i64| -> Option<u16> {
+        if x >= rx && x < rx + rw && y >= ry && y < ry + rh {
+            let k = (y - ry) * rw + (x - rx);
+            if k < len as i64 { Some((k + 1) as u16) } else { None }
+        } else { None }
+    };
+    // a stream that ends early leaves the remaining points untouched: points beyond the stream may stay UNTOUCHED only;
+    // points inside the stream must carry their own colour unless an earlier visible point was already beyond the stream
+    let (lw, lh) = oracle_logical_size(o.orientation, o.display_size.0, o.display_size.1);
+    let (fx, fy): (usize, usize) = (kani::any(), kani::any());
+    kani::assume(fx < FW && fy < FH);
+    let (x, y): (u16, u16) = (kani::any(), kani::any());
+    kani::assume(x < lw && y < lh);
+    if oracle_fb_cell(&o, x as i64, y as i64) == (fx, fy) {
+        match want(x as i64, y as i64) {
+            Some(c) => kani::assert(d.di.fb[fy][fx] == c, "C04: colour k is not on point k"),
+            None => kani::assert(d.di.fb[fy][fx] == UNTOUCHED, "C04: a point outside the rectangle or beyond the stream was drawn"),
+        }
+    }
+    let inside = fx >= o.display_offset.0 as usize && fx < (o.display_offset.0 + o.display_size.0) as usize
+        && fy >= o.display_offset.1 as usize && fy < (o.display_offset.1 + o.display_size.1) as usize;
+    if !inside { kani::assert(d.di.fb[fy][fx] == UNTOUCHED, "C02: controller memory outside the panel window was modified"); }
+    kani::assert(d.di.c08_ok(), "C08: malformed window / burst framing");
+    kani::assert(d.di.windows <= 1, "C20: a contiguous fill uses at most one address window");
+    kani::cover!(d.di.windows == 1 && rx < 0 && ry < 0 && len == area);
+    kani::cover!(d.di.windows == 1 && len < area);
+}
+
+/// the same statement on the default orientation only (the every-change version of the harness above)
+#[kani::proof]
+#[kani::unwind(22)]
+fn c04_fill_contiguous_plain() {
+    let clock = leak_clock();
+    let (mut d, o) = plain_fb_display(clock);
+    let (rx, ry): (i8, i8) = (kani::any(), kani::any());
+    let (rw, rh): (u8, u8) = (kani::any(), kani::any());
+    kani::assume(rx >= -2 && rx <= 5 && ry >= -2 && ry <= 4 && rw <= 8 && rh <= 2);
     let rect = Rectangle::new(Point::new(rx as i32, ry as i32), Size::new(rw as u32, rh as u32));
     let area = rw as u32 * rh as u32;
     let len: u32 = kani::any();
